@@ -3,10 +3,9 @@ Rebuild-round proofs: the bundle `StepAll` (simulation + footprint + frame + bad
 rebuild step), its composition, soundness of `compare`, and how a parent obtains the facts about a child block
 (`ChildPre`) from the `StepAll` of the child's body.
 -/
-import Hpbf.Proofs.OptRbInline2
-import Hpbf.Proofs.OptRbFoot6
+import Hpbf.Proofs.OptRbFinish
+import Hpbf.Proofs.OptRbFoot8
 import Hpbf.Proofs.OptRbKnown2
-import Hpbf.Proofs.OptRbLoopSem
 
 namespace Hpbf
 namespace OptProof
@@ -14,72 +13,45 @@ open Opt OptSem Ir
 
 variable {w : Nat}
 
-/-- `StepAt` with the emitted instructions `new` exposed. -/
-def StepN (sh sh' : Int) (ps : List (Rebuild w)) (s s' : Rebuild w) (src new : List (Instr w)) : Prop :=
-  (s'.subShift = false → s.subShift = false) ∧
-  ∀ M0 σE σS, RelAt sh s ps M0 σE σS → Sim (StepQ sh' ps s' M0 σE) src new σS σE ∧ ¬ Bad new σE
-
-theorem stepAt_iff_stepN {sh sh' : Int} {ps : List (Rebuild w)} {s s' : Rebuild w} {src : List (Instr w)} :
-    StepAt sh sh' ps s s' src ↔ ∃ new, s'.insts = s.insts ++ new ∧ StepN sh sh' ps s s' src new := Iff.rfl
-
 /-- Valid states stay valid along a step. -/
-theorem StepN.valid {sh sh' : Int} {ps : List (Rebuild w)} {s s' : Rebuild w} {src new : List (Instr w)}
-    (h : StepN sh sh' ps s s' src new) {σ σ' : State w} (hv : Valid sh s ps σ) (he : Exec new σ (.fin σ')) :
-    Valid sh' s' ps σ' := by
-  obtain ⟨M0, σS, hrel⟩ := hv
-  obtain ⟨σS', _, M0', hr', _⟩ := (h.2 M0 σ σS hrel).1.finR σ' he
-  exact ⟨M0', σS', hr'⟩
+theorem StepNG.valid {G G2 : State w → Prop} {sh sh' : Int} {ps : List (Rebuild w)} {s s' : Rebuild w}
+    {src new : List (Instr w)}
+    (h : StepNG G sh sh' ps s s' src new)
+    (hg : ∀ M0 σE σS σS', RelAt sh s ps M0 σE σS → G σS → Exec src σS (.fin σS') → G2 σS')
+    {σ σ' : State w} (hv : ValidG G sh s ps σ) (he : Exec new σ (.fin σ')) :
+    ValidG G2 sh' s' ps σ' := by
+  obtain ⟨M0, σS, hrel, hG⟩ := hv
+  obtain ⟨σS', hex, M0', hr', _⟩ := (h.2 M0 σ σS hrel hG).1.finR σ' he
+  exact ⟨M0', σS', hr', hg M0 σ σS σS' hrel hG hex⟩
 
-theorem StepN.trans {sh1 sh2 sh3 : Int} {ps : List (Rebuild w)} {a b c : Rebuild w}
-    {l1 l2 n1 n2 : List (Instr w)} (h1 : StepN sh1 sh2 ps a b l1 n1) (h2 : StepN sh2 sh3 ps b c l2 n2) :
-    StepN sh1 sh3 ps a c (l1 ++ l2) (n1 ++ n2) := by
-  refine ⟨fun h => h1.1 (h2.1 h), ?_⟩
-  intro M0 σE σS h
-  obtain ⟨hs1, hb1⟩ := h1.2 M0 σE σS h
-  refine ⟨Sim.append hs1 ?_, ?_⟩
-  · rintro σS' σE' ⟨M0', h', hk'⟩
-    refine (h2.2 M0' σE' σS' h').1.mono ?_
-    rintro x y ⟨M0'', h'', hk''⟩
-    refine ⟨M0'', h'', fun hc => ?_⟩
-    obtain ⟨k1, k2⟩ := hk'' hc
-    obtain ⟨k3, k4⟩ := hk' (h2.1 hc)
-    exact ⟨k1.trans k3, k2.trans k4⟩
-  · intro hb
-    rcases bad_append.1 hb with hb | ⟨σ1, he, hb⟩
-    · exact hb1 hb
-    · obtain ⟨σS', _, M0', h', _⟩ := hs1.finR σ1 he
-      exact (h2.2 M0' σ1 σS' h').2 hb
-
-/-- Everything the proof knows about one rebuild step. -/
-structure StepAll (sh sh' : Int) (ps : List (Rebuild w)) (s s' : Rebuild w) (src new : List (Instr w)) :
-    Prop where
+/-- Everything the proof knows about one rebuild step (for the source states satisfying the guard `G`). -/
+structure StepAll (G : State w → Prop) (sh sh' : Int) (ps : List (Rebuild w)) (s s' : Rebuild w)
+    (src new : List (Instr w)) : Prop where
   insts : s'.insts = s.insts ++ new
   wf : Wf s'
-  step : StepN sh sh' ps s s' src new
-  foot : FootStepV (Valid sh s ps) s s' new
-  bad : FootBadV (Valid sh s ps) s s' new
-  frame : FootFrameV (Valid sh s ps) s s' new
+  step : StepNG G sh sh' ps s s' src new
+  foot : FootStepV (ValidG G sh s ps) s s' new
+  bad : FootBadV (ValidG G sh s ps) s s' new
+  frame : FootFrameV (ValidG G sh s ps) s s' new
   mono : ReadsMono s s'
   keys : KeysMono' s s'
 
-theorem KeysMono'.trans {a b c : Rebuild w} (h1 : KeysMono' a b) (h2 : KeysMono' b c) (hm : ReadsMono b c) :
-    KeysMono' a c := fun hs v hv => h2 hs v (h1 (hm.2 hs) v hv)
-
-theorem StepAll.trans {sh1 sh2 sh3 : Int} {ps : List (Rebuild w)} {a b c : Rebuild w}
-    {l1 l2 n1 n2 : List (Instr w)} (h1 : StepAll sh1 sh2 ps a b l1 n1) (h2 : StepAll sh2 sh3 ps b c l2 n2) :
-    StepAll sh1 sh3 ps a c (l1 ++ l2) (n1 ++ n2) := by
-  have hv : ∀ σ σ', Valid sh1 a ps σ → Exec n1 σ (.fin σ') → Valid sh2 b ps σ' :=
-    fun σ σ' hv he => h1.step.valid hv he
-  exact ⟨by rw [h2.insts, h1.insts, List.append_assoc], h2.wf, h1.step.trans h2.step,
+theorem StepAll.trans {G G2 : State w → Prop} {sh1 sh2 sh3 : Int} {ps : List (Rebuild w)} {a b c : Rebuild w}
+    {l1 l2 n1 n2 : List (Instr w)} (h1 : StepAll G sh1 sh2 ps a b l1 n1) (h2 : StepAll G2 sh2 sh3 ps b c l2 n2)
+    (hg : ∀ M0 σE σS σS', RelAt sh1 a ps M0 σE σS → G σS → Exec l1 σS (.fin σS') → G2 σS') :
+    StepAll G sh1 sh3 ps a c (l1 ++ l2) (n1 ++ n2) := by
+  have hv : ∀ σ σ', ValidG G sh1 a ps σ → Exec n1 σ (.fin σ') → ValidG G2 sh2 b ps σ' :=
+    fun σ σ' hv he => h1.step.valid hg hv he
+  exact ⟨by rw [h2.insts, h1.insts, List.append_assoc], h2.wf, h1.step.trans_g h2.step hg,
     h1.foot.trans h2.foot hv h2.mono, FootBadV.trans h1.bad h1.foot h2.bad hv h2.mono,
     h1.frame.trans h1.foot h2.frame hv h2.mono h2.keys, h1.mono.trans h2.mono,
-    h1.keys.trans h2.keys h2.mono⟩
+    fun hs v hv' => h2.keys hs v (h1.keys (h2.mono.2 hs) v hv')⟩
 
-theorem StepAll.refl (sh : Int) (ps : List (Rebuild w)) {s : Rebuild w} (hwf : Wf s) :
-    StepAll sh sh ps s s [] [] := by
+theorem StepAll.refl (G : State w → Prop) (sh : Int) (ps : List (Rebuild w)) {s : Rebuild w} (hwf : Wf s) :
+    StepAll G sh sh ps s s [] [] := by
   refine ⟨by simp, hwf, ⟨fun h => h, ?_⟩, (FootStep.refl s).toV _, FootBadV.refl _ s, ?_, ReadsMono.refl s,
     fun _ _ h => h⟩
-  · intro M0 σE σS h
+  · intro M0 σE σS h _
     refine ⟨Sim.nil ⟨M0, h, fun _ => ⟨rfl, rfl⟩⟩ h.tr.symm, fun hb => by cases hb⟩
   · intro _ K _ σ1 σ2 _ _ b hex
     cases hex
@@ -315,18 +287,20 @@ theorem FootFrameV.congr_right {V : State w → Prop} {s s1 s2 : Rebuild w} {new
   exact ⟨p, fun v hv1 hv2 => m v (by rw [← h3]; exact hv1) (by rw [← h2]; exact hv2)⟩
 
 /-- The facts a parent needs about a non-moving child, from the `StepAll` of the child's body. -/
-theorem childPre_of_stepAll {shP shC cS : Int} {s : Rebuild w} {ps : List (Rebuild w)} {sub0 sub : Rebuild w}
-    {bodyS new : List (Instr w)} (hb : StepAll shP shC (s :: ps) sub0 sub bodyS new)
+theorem childPre_of_stepAll {Gc : State w → Prop} {shP shC cS : Int} {s : Rebuild w} {ps : List (Rebuild w)}
+    {sub0 sub : Rebuild w}
+    {bodyS new : List (Instr w)} (hb : StepAll Gc shP shC (s :: ps) sub0 sub bodyS new)
     (h0 : sub0.insts = []) (hw0 : sub0.written = []) (hns : sub.subShift = false)
-    (hentry : ∀ σE σS : State w, SameMem shP σS σE → σS.rd cS ≠ 0#w → ∃ M0, RelAt shP sub0 (s :: ps) M0 σE σS) :
-    ChildPre shP shC (s :: ps) sub0 (forgetParent sub) cS bodyS := by
+    (hentry : ∀ σE σS : State w, SameMem shP σS σE → σS.rd cS ≠ 0#w → Gc σS →
+      ∃ M0, RelAt shP sub0 (s :: ps) M0 σE σS) :
+    ChildPre Gc shP shC (s :: ps) sub0 (forgetParent sub) cS bodyS := by
   have hnew : (forgetParent sub).insts = new := by
     show sub.insts = new
     rw [hb.insts, h0]; rfl
   refine ⟨?_, ?_, ?_, ?_, hns, hw0, hentry, ⟨hb.wf.pend, hb.wf.writ, hb.wf.rev, hb.wf.revOk⟩⟩
-  · intro M0 σE σS hrel
+  · intro M0 σE σS hrel hg
     rw [hnew]
-    obtain ⟨hs, hbad⟩ := hb.step.2 M0 σE σS hrel
+    obtain ⟨hs, hbad⟩ := hb.step.2 M0 σE σS hrel hg
     refine ⟨hs.mono ?_, hbad⟩
     rintro a b ⟨M0', hr', hk'⟩
     exact ⟨M0', hr'.forget, hk'⟩
